@@ -1,13 +1,20 @@
 #!/bin/bash
-# usage: tools/allseeds.sh [ids...]   — applies every stored seed to /repo in turn, runs the check of the property it breaks,
-# and prints CAUGHT (a violation other than ledger-missing) / LEDGER-ONLY / MISSED.  /repo must be clean.
+# usage: tools/allseeds.sh [ids...]   — replays every stored seed in a scratch worktree of /repo HEAD (DSVC_REPO), runs the
+# check of the property it breaks, prints CAUGHT (a violation other than ledger-missing) / LEDGER-ONLY / MISSED.
+export GOFLAGS=-mod=mod GOPROXY=off GOSUMDB=off GOTOOLCHAIN=local
 cd /verif
+wt=/tmp/seedwt-$$
+git -C /repo worktree add -q --detach $wt HEAD || exit 2
+trap 'git -C /repo worktree remove --force '$wt EXIT
 ids="$@"
 [ -z "$ids" ] && ids=$(ls seeded)
 for id in $ids; do
   p=$(python3 -c "import json;print(json.load(open('seeded/$id/meta.json'))['breaks'])")
-  out=$(tools/tryseed.sh /verif/seeded/$id/patch.diff $p 2>&1)
-  if echo "$out" | grep -q "^VIOLATION"; then echo "$id $p CAUGHT $(echo "$out" | grep '^VIOLATION' | head -1 | sed 's/.*obligation=//' | cut -c1-110)";
-  elif echo "$out" | grep -q "(+ [1-9][0-9]* ledger"; then echo "$id $p LEDGER-ONLY";
+  if ! git -C $wt apply /verif/seeded/$id/patch.diff 2>/dev/null; then echo "$id $p PATCH-DOES-NOT-APPLY"; git -C $wt checkout -q -- .; continue; fi
+  out=$(DSVC_REPO=$wt bin/dsvc check $p 2>&1)
+  git -C $wt checkout -q -- .
+  v=$(echo "$out" | grep '^VIOLATION' | grep -v obligation-missing)
+  if [ -n "$v" ]; then echo "$id $p CAUGHT $(echo "$v" | head -1 | sed 's/.*obligation=//' | cut -c1-110)";
+  elif echo "$out" | grep -q "obligation-missing"; then echo "$id $p LEDGER-ONLY";
   else echo "$id $p MISSED"; fi
 done
